@@ -273,6 +273,9 @@ def _one_component(tier):
             # implementation, which satisfies the property); the code path stays available for exploration
             for case in ('far', 'witness'):
                 out.append(dict(kind=c['kind'], rational=c['rational'], comp=comp, case=case, full=(tier == 'thorough')))
+        # a coordinate / weight of large magnitude changed by far more than the tolerance but little relative to its size
+        for comp in ('coord',) + (('weight',) if c['rational'] else ()):
+            out.append(dict(kind=c['kind'], rational=c['rational'], comp=comp, case='witness_large', full=False))
     return out
 
 
@@ -290,7 +293,10 @@ def one_component(ctx, kind, rational, comp, case, full):
                  changed component: every interior knot of every direction / first, second, middle, last control point
                  (full: every control point) x every homogeneous coordinate / the weights of the same points"""
     d = _data(ctx, kind, rational, symbolic_net=(comp != 'weight'))
-    if case == 'witness':
+    big = None
+    if case == 'witness_large':
+        big, eps = ctx.lit(10 ** 6), ctx.lit(Fraction(1, 10 ** 4))
+    elif case == 'witness':
         eps = ctx.lit(Fraction(1, 4) if comp == 'knot' else 1)
     else:
         eps = ctx.num('eps')
@@ -328,6 +334,11 @@ def one_component(ctx, kind, rational, comp, case, full):
         for i in _positions(len(base), full):
             for c in range(len(base[0])):
                 pts = [list(p) for p in base]
+                if big is not None:
+                    ref = [list(p) for p in base]
+                    ref[i][c] = big
+                    a = _obj(ctx, d, pts=ref)
+                    pts[i][c] = big
                 pts[i][c] = pts[i][c] + eps
                 if rational and c == len(base[0]) - 1:
                     ctx.assume(ctx.gt(pts[i][c], 0))
@@ -335,6 +346,11 @@ def one_component(ctx, kind, rational, comp, case, full):
     else:
         for i in _positions(len(d['W']), full):
             W = list(d['W'])
+            if big is not None:
+                W0 = list(d['W'])
+                W0[i] = big
+                a = _obj(ctx, d, W=W0)
+                W[i] = big
             W[i] = W[i] + eps
             ctx.assume(ctx.gt(W[i], 0))
             _pair(ctx, '%s.weight[%d]' % (case, i), a, _obj(ctx, d, W=W), equal)
